@@ -12,9 +12,10 @@
    PARTIAL): the real match finders and parsers are such strategies, i.e. functions of the window
    CONTENT in [read_pos - dict_size, read_pos + clamp) (a function of the data and the logical
    position), of their own state (hash tables and optimum arrays: zero-/fully initialised by the
-   constructors, updated once per position in increasing order — the model proves positions are
-   handed to the match finder in order, pending ones re-processed before any consultation), and
-   of those clamped observations; they use lz.get_pos() only modulo a power of two <= 16 (window
+   constructors, updated once per position — EncWindowProofs.v shows that process_pending_bytes
+   re-runs exactly the pending positions (process_pending_spec) and that a consultation in the
+   steady phase never finds a pending position (phi_consult_nopend) —), and of those clamped
+   observations; they use lz.get_pos() only modulo a power of two <= 16 (window
    moves are multiples of 64: history_kept).  The correspondence run checks the consequences on
    the real code (identical bytes and symbol traces across partitions and repeated runs). *)
 From LzVerif Require Import Base.Bytes Codec.EncWindow Codec.EncWindowProofs.
